@@ -1,5 +1,5 @@
-import AiocoapModel.Basic.Bytes
-/-! Line protocol for C02 (not built yet). -/
+import AiocoapModel.Driver.MsgLayer
+/-! C02 is decided on the shared message-layer model. -/
 namespace Aiocoap
-def handleC02 (_args : List String) : String := "out-of-model"
+def handleC02 (args : List String) : String := MsgLayer.handleMsgLayer args
 end Aiocoap
